@@ -2,4 +2,4 @@ SPECIFICATION Spec
 INVARIANT Law
 INVARIANT EventTableLaw
 CHECK_DEADLOCK FALSE
-CONSTANT NPat = 2
+CONSTANT NPat = 3
